@@ -425,7 +425,7 @@ def py2_str_tie(ctx):
         progb = ("import sys, pickle, cPickle\n"
                  "for l in sys.stdin:\n"
                  "    s = bytearray(l.strip().decode('hex'))\n"
-                 "    sys.stdout.write(' '.join(m.dumps(s, p).encode('hex') for m in (pickle, cPickle) for p in (1, 2)) + '\\n')\n")
+                 "    sys.stdout.write(' '.join(m.dumps(s, p).encode('hex') for m in (pickle, cPickle) for p in (0, 1, 2)) + '\\n')\n")
         try:
             r = subprocess.run(["python2", "-c", progb], input="".join(x.hex() + "\n" for x in bas).encode(), capture_output=True,
                                env=dict(os.environ, PYENV_VERSION="2.7.18"), timeout=600)
@@ -435,21 +435,21 @@ def py2_str_tie(ctx):
         except (OSError, subprocess.TimeoutExpired):
             pass
     PUTS = {"pickle.py": "0 1 2 3 4", "cPickle": "1 - - - 2"}
-    blines = [f"py2ba {pr} {PUTS[w]} {hexs(x)}" for x in bas for w in PUTS for pr in (1, 2)]
+    blines = [f"py2ba {pr} {PUTS[w]} {hexs(x)}" for x in bas for w in PUTS for pr in (0, 1, 2)]
     bans = dict(zip(blines, C.run_sharded(C.run_lean, blines)))
     ba_dec, ba_meta = [], []
     for i, x in enumerate(bas):
         for wi, w in enumerate(PUTS):
-            for pi, pr in enumerate((1, 2)):
+            for pi, pr in enumerate((0, 1, 2)):
                 a = bans[f"py2ba {pr} {PUTS[w]} {hexs(x)}"]
                 if realb is not None:
                     ctx.evaluations += 1
                     ctx.traces += 1
-                    if a == "OK " + realb[i][2 * wi + pi].hex():
+                    if a == "OK " + realb[i][3 * wi + pi].hex():
                         ctx.exact_agree += 1
                         ctx.count(f"py2-bytearray:same-bytes:{w}:proto{pr}")
                     else:
-                        ctx.disagree(f"py2ba {pr} {PUTS[w]} {hexs(x)[:2000]}", f"python2 {w}: " + realb[i][2 * wi + pi].hex()[:2000], a[:2000],
+                        ctx.disagree(f"py2ba {pr} {PUTS[w]} {hexs(x)[:2000]}", f"python2 {w}: " + realb[i][3 * wi + pi].hex()[:2000], a[:2000],
                                      "model of Python 2's pickling of a bytearray")
                 if a.startswith("OK "):
                     cfg = rng.choice(CFGS)
@@ -463,6 +463,53 @@ def py2_str_tie(ctx):
         want = f"OK A{hexs(x)} {n}"
         if g != want and "TOOBIG" not in g:
             ctx.violate("Decode of what Python 2 writes for a bytearray is not that content (C02_py2_bytearray)", line[:3000], want[:600], g[:600])
+    # theorem C02_py2_unicode: a unicode object - UNICODE line in Python 2's raw-unicode-escape at protocol 0, BINUNICODE above
+    texts = ["", "a", "caf\u00e9", "\\", "a\nb", "\r\x00\x1a", "\u20ac", "\U0001f600", "\\u0041", "x" * 300, "\u00ff\u0100\uffff", "q\\\n\\"]
+    texts += [pyside.rand_text(rng) for _ in range(ctx.scale(60, 1500))]
+    realu = None
+    if real is not None:
+        progu = ("import sys, pickle, cPickle\n"
+                 "for l in sys.stdin:\n"
+                 "    s = l.strip().decode('hex').decode('utf-8')\n"
+                 "    sys.stdout.write(' '.join(m.dumps(s, p).encode('hex') for m in (pickle, cPickle) for p in (0, 1, 2)) + '\\n')\n")
+        try:
+            r = subprocess.run(["python2", "-c", progu], input="".join(t.encode("utf-8").hex() + "\n" for t in texts).encode(), capture_output=True,
+                               env=dict(os.environ, PYENV_VERSION="2.7.18"), timeout=600)
+            out = r.stdout.decode().split("\n")[:-1]
+            if r.returncode == 0 and len(out) == len(texts):
+                realu = [[bytes.fromhex(h) for h in l.split(" ")] for l in out]
+        except (OSError, subprocess.TimeoutExpired):
+            pass
+    ulines = [f"py2uni {pr} {put} {hexs(t.encode('utf-8'))}" for t in texts for put in ("0", "1", "-") for pr in (0, 1, 2)]
+    uans = dict(zip(ulines, C.run_sharded(C.run_lean, ulines)))
+    u_dec, u_meta = [], []
+    for i, t in enumerate(texts):
+        x = t.encode("utf-8")
+        for pr in (0, 1, 2):
+            model = {put: uans[f"py2uni {pr} {put} {hexs(x)}"] for put in ("0", "1", "-")}
+            if realu is not None:
+                for which, data, puts in (("pickle.py", realu[i][pr], ("0",)), ("cPickle", realu[i][3 + pr], ("1", "-"))):
+                    ctx.evaluations += 1
+                    ctx.traces += 1
+                    if any(model[q] == "OK " + data.hex() for q in puts):
+                        ctx.exact_agree += 1
+                        ctx.count(f"py2-unicode:same-bytes:{which}:proto{pr}")
+                    else:
+                        ctx.disagree(f"py2uni {pr} {puts[0]} {hexs(x)[:2000]}", f"python2 {which}: " + data.hex()[:2000], model[puts[0]][:2000],
+                                     "model of Python 2's pickling of a unicode object")
+            for put in ("0", "-"):
+                if model[put].startswith("OK "):
+                    cfg = rng.choice(CFGS)
+                    u_dec.append(f"dec {cfg} - {model[put][3:]}")
+                    u_meta.append((x, len(model[put][3:]) // 2))
+    ugo, ulean = run_both(u_dec)
+    for line, (x, n), g, l in zip(u_dec, u_meta, ugo, ulean):
+        ctx.evaluations += 1
+        ctx.tie(line[:4000], g, l)
+        ctx.count("py2-unicode:theorem-instance")
+        want = f"OK S{hexs(x)} {n}"
+        if g != want and "TOOBIG" not in g:
+            ctx.violate("Decode of what Python 2 writes for a unicode object is not that text (C02_py2_unicode)", line[:3000], want[:600], g[:600])
     go, lean = run_both(dec_lines)
     for line, (x, cfg, n), g, l in zip(dec_lines, dec_meta, go, lean):
         ctx.evaluations += 1
@@ -497,7 +544,8 @@ def _has_float(o):
 class C02:
     prop = "C02"
     lean_module = "Ogorek.Props.C02Py2"
-    theorems = ["Ogorek.C02_py2_str", "Ogorek.C02_py2_bytearray", "Ogorek.parses_py2StrBody", "Ogorek.C19_STRING_py2repr", "Ogorek.C02_pickler", "Ogorek.C02_pickler_framed", "Ogorek.C02_pickler_bin", "Ogorek.C02_pickler_dec", "Ogorek.C02_pickler_shared_dec",
+    theorems = ["Ogorek.C02_py2_str", "Ogorek.C02_py2_bytearray", "Ogorek.C02_py2_bytearray_p0", "Ogorek.C02_py2_unicode", "Ogorek.C19_UNICODE_py2",
+                "Ogorek.py2Rue_inv", "Ogorek.py2Rue_no_lf", "Ogorek.py2_bytearray_core", "Ogorek.parses_py2StrBody", "Ogorek.C19_STRING_py2repr", "Ogorek.C02_pickler", "Ogorek.C02_pickler_framed", "Ogorek.C02_pickler_bin", "Ogorek.C02_pickler_dec", "Ogorek.C02_pickler_shared_dec",
                 "Ogorek.pkOK_of_bf", "Ogorek.pyFloatTextOK_of_b", "Ogorek.C02_pickler_shared",
                 "Ogorek.C02_pickler_shared_unframed", "Ogorek.pk_val", "Ogorek.sk_val", "Ogorek.MemoInv.put", "Ogorek.runs_get",
                 "Ogorek.saveBytesS_ok", "Ogorek.saveBytearrayS_ok", "Ogorek.runs_listGroups",
@@ -548,10 +596,12 @@ class C02:
                   "repr / SHORT_BINSTRING / BINSTRING, PROTO at 2, the memo PUT with pickle.py's index 0, cPickle's index 1 or none; model "
                   "py2StrPickle, compared byte for byte with Python 2.7's pickle and cPickle where python2 can be run) decodes, from any "
                   "state, to that byte string - ByteString with StrictUnicode, string without. C02_py2_bytearray: likewise for bytearray objects as "
-                  "Python 2 (and Python 3 before 3.8) writes them at protocols 1 and 2 - bytearray(<text>, 'latin-1') through the "
+                  "Python 2 (and Python 3 before 3.8) writes them - bytearray(<text>, 'latin-1') through the "
                   "__builtin__ global, the text as BINUNICODE, the encoding name as a Python-2 str, TUPLE2 or MARK..TUPLE, REDUCE, with any "
                   "subset of the five memo PUTs (pickle.py writes all, cPickle two): Decode returns the []byte with that content "
-                  "(protocol 0 of this form is tied by correspondence only: Python 2's own raw-unicode-escape differs from CPython 3's). "
+                  "and at protocol 0 (C02_py2_bytearray_p0), where the text is a UNICODE line in Python 2's own raw-unicode-escape (backslash and LF as "
+                  "\\u005c / \\u000a, the rest by the codec; model py2Rue, proved inverse to og-rek's reader: py2Rue_inv, py2Rue_no_lf, "
+                  "C19_UNICODE_py2). C02_py2_unicode: a unicode object at protocols 0-2 likewise decodes to that text. "
                   "Per-form lemmas as before: one memo key space for all PUT / GET widths and MEMOIZE (C02_memo_keys), every LONG1 "
                   "width and counted payload (C19_LONG1, C19_counted), the bytes()/bytearray() and _codecs.encode / "
                   "bytearray(bytes) forms CPython emits below protocol 3/5 (C02_bytes_forms). PARTIAL: objects in which a CONTAINER "
@@ -822,6 +872,8 @@ class C06:
             progs += [b"T" + n.to_bytes(4, "little") + pay + b".", b"B" + n.to_bytes(4, "little") + pay + b".",
                       b"\x96" + n.to_bytes(8, "little") + pay + b".", b"X" + n.to_bytes(4, "little") + b"u" * n + b"."]
         progs += P.batch_programs()
+        progs += [b"F" + t + b"\n." for t in (b"1e0000000005", b"1e+0000000000000000005", b"1e-0000000000400", b"1000000e0000000005", b"1e000000000",
+                                                b"1e00000000000000000000000000000000000000308")]
         # what CPython's pickler writes for objects with tree-shaped containers (the programs of theorem C06_pickler_agree)
         import pickle
         pk_objs = []
